@@ -1,30 +1,14 @@
+import NetaddrVerif.Model.Cidr
 
 namespace NV
 
--- Prototype: cidr_partition halving loop, model + interval theorem (core only)
-structure N where
-  val : Nat
-  plen : Nat
-deriving Repr, DecidableEq
-
+/-! The halving loop of cidr_partition (Model/Cidr.lean `partLoop`): interval denotation of `left`/`right`. -/
 theorem pp (k : Nat) : 0 < 2 ^ k := Nat.pos_of_ne_zero (by simp)
 
-/-- the `while exclude.prefixlen >= new_prefixlen` loop of cidr_partition, as written -/
-def partLoop (w ef ep : Nat) (np iLower iUpper : Nat) (left right : List N) : List N × List N :=
-  if _h : ep ≥ np then
-    let r : List N × List N × Nat :=
-      if ef ≥ iUpper then (left ++ [⟨iLower, np⟩], right, iUpper)
-      else (left, right ++ [⟨iUpper, np⟩], iLower)
-    let np' := np + 1
-    if np' > w then (r.1, r.2.1)
-    else partLoop w ef ep np' r.2.2 (r.2.2 + 2 ^ (w - np')) r.1 r.2.1
-  else (left, right)
-termination_by ep + 1 - np
+def bmem (w : Nat) (b : Pfx) (a : Nat) : Prop := b.val ≤ a ∧ a < b.val + 2 ^ (w - b.plen)
+def lden (w : Nat) (l : List Pfx) (a : Nat) : Prop := ∃ b ∈ l, bmem w b a
 
-def bmem (w : Nat) (b : N) (a : Nat) : Prop := b.val ≤ a ∧ a < b.val + 2 ^ (w - b.plen)
-def lden (w : Nat) (l : List N) (a : Nat) : Prop := ∃ b ∈ l, bmem w b a
-
-theorem lden_append (w : Nat) (l : List N) (b : N) (a : Nat) :
+theorem lden_append (w : Nat) (l : List Pfx) (b : Pfx) (a : Nat) :
     lden w (l ++ [b]) a ↔ lden w l a ∨ bmem w b a := by
   simp [lden, or_and_right, exists_or]
 
@@ -49,7 +33,7 @@ theorem pow_dvd (w np ep : Nat) (h1 : np ≤ ep) (h2 : ep ≤ w) : 2 ^ (w - np) 
   rw [this, Nat.pow_add]; simp
 
 theorem partLoop_spec (w ef ep t tend : Nat) (hep : ep ≤ w) (hal : ef % 2 ^ (w - ep) = 0) :
-    ∀ (fuel np iLower : Nat) (left right : List N),
+    ∀ (fuel np iLower : Nat) (left right : List Pfx),
       fuel = ep + 1 - np → 1 ≤ np → np ≤ ep + 1 → np ≤ w →
       iLower % (2 * 2 ^ (w - np)) = 0 →
       iLower ≤ ef → ef + 2 ^ (w - ep) ≤ iLower + 2 * 2 ^ (w - np) →
